@@ -11,6 +11,7 @@ import Tw.Drv.Util
   also evaluates the C18 merge oracle; the model treats both alike.)
 * `hs <k> <prefix> <suffix> <alphabet> <maxlen>`: the `parse()` of kind `k` on `prefix ++ w ++ suffix`
   for every string `w` over the alphabet up to the length, results hashed.
+* `hc <k> <prefix> <suffix> <v1,v2,…>`: the count fields jointly swept over the values (every tuple).
 * `mh|mfh <n> <k:hex>×n <maxlen>`: every step sequence over the part indices of length 1..maxlen, in
   lexicographic order per length, each output folded into FNV-1a. -/
 namespace Tw.Drv.Browse
@@ -167,8 +168,38 @@ def sweepHash (k : InfoKind) (pre suf alphabet : List UInt8) (maxLen : Nat) : Op
         h := fnvByte h 10
   return some h
 
+/-- wire form of an integer field of kind `k`: varint (0.7) or decimal text + NUL -/
+def encInt (k : InfoKind) (v : Int) : List UInt8 :=
+  match k with
+  | .info7 => Tw.Packer.writeInt v
+  | _ => (toString v).toUTF8.toList ++ [0]
+
+/-- all tuples of length `n` over `vals`, lexicographic -/
+def tuples (vals : List Int) : Nat → List (List Int)
+  | 0 => [[]]
+  | n + 1 => vals.flatMap fun v => (tuples vals n).map (v :: ·)
+
+/-- `hc`: the count fields (players, max players[, clients, max clients]) jointly swept over `vals` -/
+def countHash (k : InfoKind) (pre suf : List UInt8) (vals : List Int) : Option UInt64 := Id.run do
+  let mut h := fnvOffset
+  let n := if k == .info5 then 2 else 4
+  for t in tuples vals n do
+    match infoResult k (pre ++ t.flatMap (encInt k) ++ suf) with
+    | none => return none
+    | some r =>
+      h := fnvString h r
+      h := fnvByte h 10
+  return some h
+
 def handle (toks : List String) : String :=
   match toks with
+  | ["hc", k, pre, suf, vals] =>
+    match kindOfChar k, parseHex pre, parseHex suf, (vals.splitOn ",").mapM parseInt with
+    | some k, some pre, some suf, some vals =>
+      match countHash k pre suf vals with
+      | some h => s!"h {h}"
+      | none => "panic"
+    | _, _, _, _ => "bad-op"
   | ["hs", k, pre, suf, alpha, ml] =>
     match kindOfChar k, parseHex pre, parseHex suf, parseHex alpha, parseNat ml with
     | some k, some pre, some suf, some alpha, some ml =>
